@@ -59,6 +59,7 @@ def withStack (stack : String) (E : Env) (repair : Bool) (r : Rec) (w : World)
   | "none" => some (f recHook r w)
   | "nofinish" => some (f (noFinishHook recHook) r w)
   | "replace" => some ((f (replaceHook recHook) ({}, r) w).map fun ((_, r), w) => (r, w))
+  | "replacenofinish" => some ((f (replaceHook (noFinishHook recHook)) ({}, r) w).map fun ((_, r), w) => (r, w))
   | "compact" => some ((f (compactHook E repair recHook) ([], r) w).map fun ((_, r), w) => (r, w))
   | "compactreplace" =>
     some ((f (compactHook E repair (replaceHook recHook)) ([], ({}, r)) w).map fun ((_, _, r), w) => (r, w))
